@@ -415,9 +415,28 @@ def has_nonfinite(x):
     return False
 
 
+WATCHED = []
+
+
+def watch(a):
+    """register an array handed to the library: it must come back unchanged (the caller's data are never modified, C14)"""
+    import numpy as np
+    if isinstance(a, np.ndarray):
+        WATCHED.append((a, a.copy()))
+    return a
+
+
 def safe_impl(prop, case):
     try:
+        del WATCHED[:]
         out = prop.run_impl(case)
+        import numpy as np
+        for a, a0 in WATCHED:
+            if not (a.shape == a0.shape and np.array_equal(a, a0, equal_nan=True)):
+                del WATCHED[:]
+                return {"error": "InputMutated", "msg": "an array supplied by the caller was modified in place (max change %.3g)" % (
+                    float(np.max(np.abs(np.asarray(a, dtype=float) - np.asarray(a0, dtype=float)))) if a.shape == a0.shape else float("nan"))}
+        del WATCHED[:]
         if isinstance(out, dict) and "error" not in out and not getattr(prop, "allow_nonfinite", False) and has_nonfinite(out):
             return {"error": "NonFinite", "msg": "the implementation returned NaN/inf values", "raw": repr(out)[:400]}
         return out
